@@ -240,8 +240,19 @@ def build_direct(spec, f):
         elif ld[0] == 'insul':
             w = wires[ld[3]]
             m.register_load(mm.Insulation_Load(w, w.r * ld[1], ld[2]), None, w.tag)
-    for (z, p) in spec.get('loads', []):
-        m.register_load(mm.Impedance_Load(complex(z)), p)
+    for ld in spec.get('loads', []):
+        z, p = ld[0], ld[1]
+        form = ld[2] if len(ld) > 2 else 'abs'
+        load = mm.Impedance_Load(complex(z))
+        if form == 'abs':
+            m.register_load(load, p)
+        elif form == 'geo':
+            w = wires[p % len(wires)]
+            m.register_load(load, 0, w.tag)             # first pulse of that object
+        elif form == 'all_geo':
+            m.register_load(load, None, wires[p % len(wires)].tag)
+        else:
+            m.register_load(load)                        # every pulse
     for (sig, wi) in spec.get('skin', []):
         ld = mm.Skin_Effect_Load(wires[wi], sig)
         m.register_load(ld, None, wires[wi].tag)
